@@ -71,9 +71,10 @@ def r1(ctx: Ctx) -> None:
 @rule("C17.R2", "the public index getters forward the requested time to the computation", "T9 delegation chain", floor=3)
 def r2(ctx: Ctx) -> None:
     chain = (("IndexMarket.get_index", "compute_market_index"), ("IndexMarket.get_market_index", "compute_market_index"), ("IndexMarket.get_fundamental_index", "_extract_data_by_time"))
+    inl = ("IndexMarket.get_market_index", "Market.get_fundamental_price")
     for q, leaf in chain:
         f = ctx.func(q)
-        for p in ctx.paths(q):
+        for p in ctx.paths(q, inline=tuple(x for x in inl if x != q)):
             r = strip_ver(p.exit[1]) if p.exit[0] == "return" else NONE
             ok = r[0] == "call" and key(r[1]) == f"self.{leaf}" and (dict(r[3]).get("time") == ("sym", "time") or (r[2] and r[2][0] == ("sym", "time"))) and not p.conds
             if ok and leaf == "_extract_data_by_time":
